@@ -2,6 +2,8 @@
 
 package proxycore
 
+import "time"
+
 // VerifSetPlanCounter places the round-robin plan counter at n so that a check can cross
 // the 32-bit and 64-bit boundaries without creating that many plans. Only built with -tags verif.
 func VerifSetPlanCounter(lb LoadBalancer, n uint64) bool {
@@ -10,4 +12,9 @@ func VerifSetPlanCounter(lb LoadBalancer, n uint64) bool {
 		return true
 	}
 	return false
+}
+
+// VerifSetRefreshWindow sets the topology refresh window of a connected cluster. Only built with -tags verif.
+func VerifSetRefreshWindow(c *Cluster, d time.Duration) {
+	c.config.RefreshWindow = d
 }
